@@ -257,6 +257,69 @@ def run_case(args):
     return res
 
 
+def join_case(args):
+    """ORDER BY above a join of inputs that arrive sorted (derived tables with ORDER BY, or keyed disk tables): the planner may
+    run a merge join and drop the sort when it believes the join output already has the order. Oracle: the ordered result is
+    sorted on its keys and is a permutation of the same join without ORDER BY."""
+    seed, idx, nq = args
+    rng = random.Random(f"c12-join-{seed}-{idx}")
+    res = dict(violations=[], evals=0, judged=0, nontrivial=[], inconclusive=None, sample=None, merge_joins=0)
+    engine = "mem" if idx % 4 == 0 else "disk"
+    rl = RL(engine, rng.choice(LAYOUTS))
+    try:
+        keyed = engine == "disk" and rng.random() < 0.5
+        dom = rng.choice([[1, 2, 3], [1, 1, 2, 3, 3, None], list(range(8)), [5]])
+        for name in ("a", "b"):
+            rl.sql(f"CREATE TABLE {name}(k INT{' PRIMARY KEY' if keyed else ''}, v INT, w VARCHAR)")
+            doms = [x for x in dom if x is not None] if keyed else dom
+            for _ in range(rng.randint(1, 3)):
+                rows = [(rng.choice(doms), rng.choice([None, -11, -10, 0, 7, 20]), rng.choice(["x", "y", None])) for _ in range(rng.choice([2, 5, 12, 40]))]
+                r = rl.sql(f"INSERT INTO {name} VALUES " + ", ".join("(" + ", ".join("NULL" if c is None else (repr(c) if isinstance(c, str) else str(c)) for c in row) + ")" for row in rows))
+                if not r["ok"]:
+                    res["inconclusive"] = "insert failed: " + r.get("err", "")[:50]
+                    return res
+        for _ in range(nq):
+            def side(name, alias):
+                if keyed and rng.random() < 0.5:
+                    return f"{name} AS {alias}"
+                order = rng.choice(["k", "k, v", "k, v, w", "k DESC", "k, v DESC"])
+                return f"(SELECT k, v, w FROM {name} ORDER BY {order}) AS {alias}"
+            jt = rng.choice(["JOIN", "JOIN", "LEFT JOIN", "RIGHT JOIN", "FULL JOIN"])
+            base = f"SELECT x.k AS c0, x.v AS c1, y.k AS c2, y.v AS c3, y.w AS c4 FROM {side('a', 'x')} {jt} {side('b', 'y')} ON x.k = y.k"
+            if rng.random() < 0.2:
+                base += f" WHERE {rng.choice(['x.v', 'y.v'])} {rng.choice(['<', '>=', '<>'])} {rng.choice([0, 7, -10])}"
+            keys = rng.choice([[2, 3], [2, 3, 4], [0, 1], [2], [0], [0, 3], [3], [2, 1], [1, 3]])
+            descs = [rng.random() < 0.15 for _ in keys]
+            q = base + " ORDER BY " + ", ".join(f"c{k}{' DESC' if d else ''}" for k, d in zip(keys, descs))
+            r0, r1 = rl.sql(base), rl.sql(q)
+            res["evals"] += 2
+            if r0.get("dead") or r1.get("dead"):
+                res["inconclusive"] = "runner died"
+                break
+            if not (r0["ok"] and r1["ok"]):
+                if r0["ok"] != r1["ok"]:
+                    res["violations"].append(dict(signature="join-order:ordered-query-fails", what=f"{q}: {(r1 if not r1['ok'] else r0).get('err', '')[:100]} {(r1 if not r1['ok'] else r0).get('panics')}"))
+                continue
+            res["judged"] += 1
+            e = rl.sql("EXPLAIN " + q)
+            if e["ok"] and "MergeJoin" in str(e["rows"]):
+                res["merge_joins"] += 1
+            if ms(r0["rows"]) != ms(r1["rows"]):
+                res["violations"].append(dict(signature="join-order:not-a-permutation", what=f"{q}: {len(r1['rows'])} rows, without ORDER BY {len(r0['rows'])}"))
+            elif not is_sorted(r1["rows"], list(zip(keys, descs))):
+                res["violations"].append(dict(signature="join-order:not-sorted", what=f"{q}: keys {[tuple(x[k] for k in keys) for x in r1['rows'][:10]]}"))
+            elif len(r1["rows"]) > 1:
+                res["nontrivial"].append(h([idx, q]))
+            res["sample"] = q
+    except Exception as ex:
+        res["inconclusive"] = f"harness: {type(ex).__name__}: {ex}"
+    finally:
+        rl.close()
+    if res["violations"]:
+        res["witness"] = dict(join_leg=True, seed=seed, idx=idx, nq=nq)
+    return res
+
+
 def sentinel(w):
     rl = RL("disk", LAYOUTS[0])
     out = []
@@ -292,6 +355,22 @@ def run(tier, seed):
             rep.sample(res["sample"], limit=4)
         for v in res["violations"]:
             rep.add_violation(Violation(v["signature"], v["what"], res.get("witness")))
+    nj = 96 if tier == "quick" else 3000
+    jj = mj = 0
+    for res in parallel_map(join_case, [(seed, i, 8) for i in range(nj)]):
+        rep.evaluations += res["evals"]
+        rep.distinct.update(res["nontrivial"])
+        jj += res["judged"]
+        mj += res["merge_joins"]
+        if res["inconclusive"]:
+            rep.inc("join leg: " + res["inconclusive"][:50])
+        if res["sample"]:
+            rep.sample(dict(join_leg=res["sample"]), limit=6)
+        for v in res["violations"]:
+            rep.add_violation(Violation(v["signature"], v["what"], res.get("witness")))
+    rep.coverage.update(join_leg_ordered_joins_judged=jj, join_leg_plans_with_a_merge_join=mj)
+    rep.floor("join leg: ordered joins judged", jj, nj * 4)
+    rep.floor("join leg: plans with a merge join", mj, nj // 4)
     run_sentinels(rep, sentinel)
     rep.coverage.update(oracle_checks=feats)
     rep.floor("ordered queries judged", feats.get("order", 0), n * 2)
@@ -303,7 +382,7 @@ def run(tier, seed):
 def replay(path):
     import json
     w = json.load(open(path))["witness"]
-    res = run_case((w["seed"], w["idx"], w["nq"]))
+    res = (join_case if w.get("join_leg") else run_case)((w["seed"], w["idx"], w["nq"]))
     for v in res["violations"]:
         print("VIOLATION-REPRO", v)
     return 1 if res["violations"] else 0
